@@ -20,6 +20,7 @@ type decision struct {
 	N      int    // number of alternatives that were feasible/considered (1 = forced)
 	Aux    uint64 // concretised value, if any
 	Kind   string
+	Where  string
 }
 
 // Outcome of a path.
@@ -270,9 +271,13 @@ func (e *Engine) branch(cond *smt.Term) bool {
 	// both feasible: take true first, queue false
 	alt := make([]decision, len(e.trace)+1)
 	copy(alt, e.trace)
-	alt[len(e.trace)] = decision{Choice: 1, N: 2, Kind: "br"}
+	where := ""
+	if e.Verbose > 2 && e.cur != nil && e.cur.fr != nil && e.cur.fr.fn != nil {
+		where = e.cur.fr.fn.Name()
+	}
+	alt[len(e.trace)] = decision{Choice: 1, N: 2, Kind: "br", Where: where}
 	e.work = append(e.work, alt)
-	e.trace = append(e.trace, decision{Choice: 0, N: 2, Kind: "br"})
+	e.trace = append(e.trace, decision{Choice: 0, N: 2, Kind: "br", Where: where})
 	e.addPC(cond)
 	return true
 }
@@ -627,6 +632,15 @@ func (e *Engine) runPath(entry *ssa.Function, prefix []decision) {
 		}
 	} else if e.Verbose > 1 {
 		fmt.Fprintf(os.Stderr, "path %d: %s %s (decisions %d, steps %d)\n", e.Paths, e.outcome.Kind, e.outcome.Detail, len(e.trace), e.steps)
+		if e.Verbose > 2 {
+			var sb strings.Builder
+			for _, d := range e.trace {
+				if d.N > 1 {
+					fmt.Fprintf(&sb, "%s%d/%d@%s ", d.Kind, d.Choice, d.N, d.Where)
+				}
+			}
+			fmt.Fprintf(os.Stderr, "   %s\n", sb.String())
+		}
 	}
 	if len(e.Samples) < 6 && e.outcome.Kind == "ok" {
 		e.Samples = append(e.Samples, map[string]interface{}{
